@@ -31,6 +31,7 @@ RULES = {
     "R12.8": "every retained step holds the solver state of that iteration: between a step and the save that records it, saved state is written only by storing the step's results (instances of C09 R9.7)",
     "R12.7": "restore(): an explicit checkpoint_frequency / max_checkpoints override - including 0, which disables checkpointing - reaches the configuration (guarded by `is not None`, not by truthiness)",
     "R12.6": "file-system effects on a checkpoint directory occur only at the frozen sites (mkdir + OmegaConf.save in set-up, CheckpointManager(create=True) in _create_checkpoint_manager, checkpoint_manager.save)",
+    "R12.10": "nothing but (checkpoint_frequency, max_checkpoints) decides which steps are written and kept: every CheckpointManagerOptions carries only max_to_keep / create / enable_async_checkpointing (no save_interval_steps, keep_period, save_on_steps, should_save_fn, best_fn, ... and none assigned afterwards), checkpoint_manager.save passes no `force` / `metrics` that a policy could key on, and no manager method that removes steps (delete, reload-after-prune, close-and-clean) is called by the package",
 }
 ASSUMPTIONS = [
     "orbax CheckpointManager honours max_to_keep and creates the directory only when constructed",
@@ -91,7 +92,9 @@ def run(ctx: Context, col) -> None:
     part(_writers, ctx, col)
     part(_override_zero, ctx, col)
     part(_shared_state, ctx, col)
+    part(_policy_options, ctx, col)
     part.finish()
+    col.floor("R12.10", 3)
     col.floor("R12.9", 1)
     col.floor("R12.8", 5)
     col.floor("R12.7", 2)
@@ -534,3 +537,108 @@ def _override_zero(ctx, col):
     from . import c10
 
     c10._overrides(ctx, _Refile(col))
+
+
+# options of orbax's CheckpointManagerOptions that change WHICH steps are written or kept (one reason each)
+OPTS_ALLOWED = {"max_to_keep", "create", "enable_async_checkpointing"}
+OPTS_AFFECTING = {
+    "save_interval_steps": "manager.save() silently skips every step that is not a multiple of it",
+    "save_on_steps": "forces / restricts the set of steps written",
+    "should_save_fn": "a predicate decides which steps are written",
+    "save_decision_policy": "a policy object decides which steps are written",
+    "keep_period": "steps divisible by it are kept forever, beyond max_to_keep",
+    "keep_time_interval": "steps are kept by wall-clock age, beyond max_to_keep",
+    "should_keep_fn": "a predicate decides which steps are kept",
+    "preservation_policy": "a policy object decides which steps are kept",
+    "best_fn": "retention keeps the best-scoring steps instead of the latest",
+    "best_mode": "retention keeps the best-scoring steps instead of the latest",
+    "keep_checkpoints_without_metrics": "retention depends on metrics",
+    "read_only": "nothing is written at all",
+    "todelete_subdir": "pruned steps are renamed into a sub-directory instead of removed",
+    "todelete_full_path": "pruned steps are moved elsewhere instead of removed",
+}
+OPTS_NEUTRAL = {"async_options", "enable_background_delete", "cleanup_tmp_directories", "multiprocessing_options",
+                "file_options", "temporary_path_class", "enable_hns", "enable_per_process_directory_creation",
+                "lightweight_initialize", "save_root_metadata", "prevent_write_metrics", "step_name_format",
+                "step_prefix", "step_format_fixed_length", "single_host_load_and_broadcast", "should_use_tensorstore_for_numpy_array",
+                "enable_should_save_is_saving_in_progress_check", "max_to_keep"}
+MGR_REMOVING = {"delete": "removes a step directory", "_cleanup": "prunes steps", "_delete": "removes a step directory"}
+
+
+def _manager_exprs(ctx):
+    """texts of expressions bound to a checkpoint manager anywhere in the package"""
+    out = {"self.checkpoint_manager"}
+    for m in ctx.repo.modules.values():
+        for st in ast.walk(m.tree):
+            if isinstance(st, ast.Assign) and isinstance(st.value, ast.Call):
+                f = ast.unparse(st.value.func)
+                if f.endswith("_create_checkpoint_manager") or f.endswith("CheckpointManager"):
+                    for t in st.targets:
+                        out.add(ast.unparse(t))
+    return out
+
+
+def _policy_options(ctx, col):
+    n_opts = 0
+    for m in ctx.repo.modules.values():
+        parents = parents_of(m.tree)
+
+        def where(c):
+            names, cur = [], c
+            while cur is not None:
+                cur = parents.get(id(cur))
+                if isinstance(cur, (ast.FunctionDef, ast.ClassDef)):
+                    names.append(cur.name)
+            return ".".join(reversed(names)) or m.name
+
+        mgrs = _manager_exprs(ctx)
+        for c in ast.walk(m.tree):
+            if isinstance(c, ast.Call) and ast.unparse(c.func).endswith("CheckpointManagerOptions"):
+                n_opts += 1
+                q = where(c)
+                bad = [k.arg for k in c.keywords if k.arg in OPTS_AFFECTING]
+                unknown = [k.arg or "**" for k in c.keywords if k.arg not in OPTS_AFFECTING and k.arg not in OPTS_ALLOWED and k.arg not in OPTS_NEUTRAL]
+                if c.args:
+                    unknown.append("<positional>")
+                if unknown and not bad:
+                    raise AnalysisError(f"{m.relpath}:{c.lineno} CheckpointManagerOptions is given {unknown}: not in the table of options "
+                                        "read for their effect on cadence / retention; R12.10 cannot be decided")
+                col.add("R12.10", q, m.relpath, c.lineno, not bad,
+                        "the manager's options leave cadence and retention to checkpoint_frequency and max_to_keep" if not bad else
+                        "; ".join(f"`{b}`: {OPTS_AFFECTING[b]}" for b in bad) + " - which steps are written / kept no longer follows "
+                        "checkpoint_frequency and max_checkpoints alone", text="CheckpointManagerOptions keywords")
+            # an option assigned after construction (options.keep_period = ..), dataclasses.replace(options, keep_period=..)
+            if isinstance(c, (ast.Assign, ast.AugAssign, ast.AnnAssign)):
+                tg = c.targets if isinstance(c, ast.Assign) else [c.target]
+                for t in tg:
+                    if isinstance(t, ast.Attribute) and t.attr in OPTS_AFFECTING and not is_self_attr(t):
+                        col.add("R12.10", where(c), m.relpath, c.lineno, False,
+                                f"`{ast.unparse(t)}` is assigned: {OPTS_AFFECTING[t.attr]}", text=f"assignment of option {t.attr}")
+            if isinstance(c, ast.Call) and ast.unparse(c.func).endswith("replace") and c.args and "option" in ast.unparse(c.args[0]).lower():
+                bad = [k.arg for k in c.keywords if k.arg in OPTS_AFFECTING]
+                if bad:
+                    col.add("R12.10", where(c), m.relpath, c.lineno, False,
+                            "; ".join(f"`{b}`: {OPTS_AFFECTING[b]}" for b in bad), text="options replaced")
+            if isinstance(c, ast.Call) and isinstance(c.func, ast.Attribute):
+                recv = ast.unparse(c.func.value)
+                is_mgr = recv in mgrs or "manager" in recv.lower()
+                if is_mgr and c.func.attr in MGR_REMOVING:
+                    col.add("R12.10", where(c), m.relpath, c.lineno, False,
+                            f"`{norm_text(c)[:80]}` {MGR_REMOVING[c.func.attr]}: a retained step is removed by the package, not by max_to_keep",
+                            text=f"manager.{c.func.attr}")
+                if is_mgr and c.func.attr == "save":
+                    kw = {k.arg for k in c.keywords}
+                    extra = sorted(k for k in kw if k not in ("args", "items", None))
+                    ok = not extra or extra == ["force"] and False
+                    if "force" in kw or "metrics" in kw or None in kw:
+                        raise AnalysisError(f"{m.relpath}:{c.lineno} checkpoint_manager.save is passed {sorted(str(k) for k in kw)}: "
+                                            "force / metrics interact with save policies; R12.10 cannot be decided")
+                    col.add("R12.10", where(c), m.relpath, c.lineno, not extra,
+                            "checkpoint_manager.save(step, args=...) - nothing a save policy could key on" if not extra else
+                            f"checkpoint_manager.save is passed {extra}", text="manager.save keywords")
+    if n_opts == 0:
+        raise AnalysisError("anchor vanished: no CheckpointManagerOptions(...) construction in the package")
+    cm = ctx.ct.get("CheckpointMixin")
+    col.add("R12.10", "CheckpointMixin", cm.module.relpath, cm.node.lineno, True,
+            f"{n_opts} options construction(s) and every call on a checkpoint manager examined; no step-removing manager method is called",
+            text="manager methods")
